@@ -33,10 +33,16 @@ type netParams struct {
 	MaxPack  uint64  `json:"max_pack"`
 	HavesRT  int     `json:"haves_rt"`
 	Tags     bool    `json:"tags"`
-	FF       string  `json:"ff"`              // merge mode: "" | no-ff | ff-only
-	Slow     bool    `json:"slow"`            // server trickles packfiles one byte per flush
-	Rel      string  `json:"rel,omitempty"`   // relation forced on the first branch
-	Shape    [][]int `json:"shape,omitempty"` // explicit history shape; the single branch is "new" at the last commit
+	FF       string  `json:"ff"`                  // merge mode: "" | no-ff | ff-only
+	Slow     bool    `json:"slow"`                // server trickles packfiles one byte per flush
+	Rel      string  `json:"rel,omitempty"`       // relation forced on the first branch
+	Shape    [][]int `json:"shape,omitempty"`     // explicit history shape; the single branch is "new" at the last commit
+	All      bool    `json:"all,omitempty"`       // fetch --all: the refspecs come from the remote's configuration
+	Narrow   bool    `json:"narrow,omitempty"`    // fetch: only the first branch's refspec is given; other branches and tags exist on the remote
+	TagSrc   string  `json:"tag_src,omitempty"`   // push: how the tag's source is spelled: "" (refs/tags/x) | short (x:refs/tags/x) | bare (x) | head (refs/heads/b0:refs/tags/x)
+	FailAt   int     `json:"fail_at,omitempty"`   // C09: a first attempt whose FailAt-th receiver-side store write fails, then the judged attempt
+	TagRel   string  `json:"tag_rel,omitempty"`  // relation forced on the tag: clobber = the receiver's tag sits on an ancestor of the sender's
+	FailFrom bool    `json:"fail_from,omitempty"` // every write from FailAt on fails (disk full) instead of one
 }
 
 type branchPlan struct {
@@ -175,9 +181,36 @@ func buildNet(c *fw.Case, env *fw.Env, p *netParams, rng *rand.Rand) (*netWorld,
 	}
 	if p.Tags {
 		r := rng.Intn(p.N)
-		pl := branchPlan{Name: "tag:v1", Relation: []string{"new", "tag-clobber", "equal"}[rng.Intn(3)], Remote: r, Local: -1}
+		pl := branchPlan{Name: "tag:rel1", Relation: []string{"new", "tag-clobber", "equal"}[rng.Intn(3)], Remote: r, Local: -1}
+		if p.Narrow && len(w.plans) > 0 {
+			// the tag sits on a commit the requested branch does not reach, where there is one
+			var off []int
+			for c := range h.sums {
+				if !h.anc[w.plans[0].Remote][c] {
+					off = append(off, c)
+				}
+			}
+			if len(off) > 0 {
+				r = off[rng.Intn(len(off))]
+				pl.Remote, pl.Relation = r, "new"
+			}
+		}
+		if p.TagSrc == "head" && len(w.plans) > 0 && !strings.HasPrefix(w.plans[0].Name, "tag:") {
+			r = w.plans[0].Remote // the tag is pushed from the first branch
+			pl.Remote = r
+		}
+		if p.TagRel == "clobber" {
+			pl.Relation = "tag-clobber"
+			for try := 0; try < 20 && p.TagSrc != "head" && pickByRelation(rng, h, r, "remote-ahead") < 0; try++ {
+				r = rng.Intn(p.N)
+				pl.Remote = r
+			}
+		}
 		if pl.Relation == "tag-clobber" {
 			pl.Local = (r + 1 + rng.Intn(p.N)) % p.N
+			if a := pickByRelation(rng, h, r, "remote-ahead"); a >= 0 && (rng.Intn(2) == 0 || p.TagRel == "clobber") {
+				pl.Local = a // the existing tag sits on an ancestor: a fast-forward test alone would let it through
+			}
 			if pl.Local == r {
 				pl.Relation = "equal"
 			}
@@ -388,28 +421,10 @@ func netArgs(w *netWorld, p *netParams) []string {
 	switch p.Op {
 	case "fetch":
 		args := []string{"fetch", "origin"}
-		plus := ""
-		if p.Force == "refspec" {
-			plus = "+"
-		}
-		if p.Force == "mixed" {
-			// one refspec per branch; only some carry '+' (see planForced)
-			for i, pl := range w.plans {
-				pp := ""
-				if planForced(p, i) {
-					pp = "+"
-				}
-				if strings.HasPrefix(pl.Name, "tag:") {
-					args = append(args, fmt.Sprintf("%srefs/tags/%s:refs/tags/%s", pp, pl.Name[4:], pl.Name[4:]))
-				} else {
-					args = append(args, fmt.Sprintf("%srefs/heads/%s:refs/remotes/origin/%s", pp, pl.Name, pl.Name))
-				}
-			}
+		if p.All {
+			args = []string{"fetch", "--all"}
 		} else {
-			args = append(args, plus+"refs/heads/*:refs/remotes/origin/*")
-			if p.Tags {
-				args = append(args, plus+"refs/tags/*:refs/tags/*")
-			}
+			args = append(args, fetchRefspecs(w, p)...)
 		}
 		if p.Force == "global" {
 			args = append(args, "--force")
@@ -426,7 +441,21 @@ func netArgs(w *netWorld, p *netParams) []string {
 				plus = "+"
 			}
 			if strings.HasPrefix(pl.Name, "tag:") {
-				args = append(args, fmt.Sprintf("%srefs/tags/%s:refs/tags/%s", plus, pl.Name[4:], pl.Name[4:]))
+				t := pl.Name[4:]
+				src := p.TagSrc
+				if src == "bare" && pl.Local < 0 {
+					src = "short" // a bare name has no destination when the remote does not know the tag yet
+				}
+				switch src {
+				case "short":
+					args = append(args, fmt.Sprintf("%s%s:refs/tags/%s", plus, t, t))
+				case "bare":
+					args = append(args, plus+t)
+				case "head":
+					args = append(args, fmt.Sprintf("%srefs/heads/%s:refs/tags/%s", plus, w.plans[0].Name, t))
+				default:
+					args = append(args, fmt.Sprintf("%srefs/tags/%s:refs/tags/%s", plus, t, t))
+				}
 			} else {
 				args = append(args, fmt.Sprintf("%srefs/heads/%s:refs/heads/%s", plus, pl.Name, pl.Name))
 			}
@@ -455,6 +484,53 @@ func netArgs(w *netWorld, p *netParams) []string {
 	return nil
 }
 
+// fetchRefspecs lists the refspecs of a fetch scenario (given on the command line, or stored in the remote's
+// configuration for --all).
+func fetchRefspecs(w *netWorld, p *netParams) []string {
+	var specs []string
+	plus := ""
+	if p.Force == "refspec" {
+		plus = "+"
+	}
+	switch {
+	case p.Narrow:
+		specs = append(specs, fmt.Sprintf("%srefs/heads/%s:refs/remotes/origin/%s", plus, w.plans[0].Name, w.plans[0].Name))
+	case p.Force == "mixed":
+		// one refspec per branch; only some carry '+' (see planForced)
+		for i, pl := range w.plans {
+			pp := ""
+			if planForced(p, i) {
+				pp = "+"
+			}
+			if strings.HasPrefix(pl.Name, "tag:") {
+				specs = append(specs, fmt.Sprintf("%srefs/tags/%s:refs/tags/%s", pp, pl.Name[4:], pl.Name[4:]))
+			} else {
+				specs = append(specs, fmt.Sprintf("%srefs/heads/%s:refs/remotes/origin/%s", pp, pl.Name, pl.Name))
+			}
+		}
+	default:
+		specs = append(specs, plus+"refs/heads/*:refs/remotes/origin/*")
+		if p.Tags {
+			specs = append(specs, plus+"refs/tags/*:refs/tags/*")
+		}
+	}
+	return specs
+}
+
+// setupFetchConfig stores the scenario's refspecs as the remote's fetch configuration (for `wrgl fetch --all`).
+func setupFetchConfig(w *netWorld, p *netParams) error {
+	for i, sp := range fetchRefspecs(w, p) {
+		verb := "add"
+		if i == 0 {
+			verb = "replace-all"
+		}
+		if out, err, pn := mon.Wrgl(w.localDir, nil, "config", verb, "remote.origin.fetch", sp); err != nil || pn != "" {
+			return fmt.Errorf("config %s: %v %s %s", verb, err, pn, out)
+		}
+	}
+	return nil
+}
+
 // planForced says whether the i-th plan's refspec carries '+' under Force == "mixed": even positions do.
 func planForced(p *netParams, i int) bool {
 	switch p.Force {
@@ -466,10 +542,13 @@ func planForced(p *netParams, i int) bool {
 	return false
 }
 
-func setupRemoteConfig(w *netWorld) error {
+func setupRemoteConfig(w *netWorld, p *netParams) error {
 	_, err, pn := mon.Wrgl(w.localDir, nil, "remote", "add", "origin", w.srv.URL())
 	if err != nil || pn != "" {
 		return fmt.Errorf("remote add: %v %s", err, pn)
+	}
+	if p.All {
+		return setupFetchConfig(w, p)
 	}
 	return nil
 }
